@@ -387,8 +387,10 @@ func doReplay(p *core.Property, path string, shrink bool, out string, budget int
 // entries, halve entries.  Generator-agnostic: any edited tape is valid.
 func minimise(tp []uint32, budget int, ok func([]uint32) bool) []uint32 {
 	cur := append([]uint32(nil), tp...)
+	deadline := time.Now().Add(40 * time.Second) // harness budget only; never part of a verdict
 	try := func(c []uint32) bool {
-		if budget <= 0 {
+		if budget <= 0 || time.Now().After(deadline) {
+			budget = 0
 			return false
 		}
 		budget--
